@@ -87,8 +87,14 @@ func genKVs(t *rapid.T, label string, minN, maxN int, large bool) []KV {
 	var out []KV
 	for i := 0; i < n; i++ {
 		k := []byte(fmt.Sprintf("%s-%04d", label, i))
-		if rapid.IntRange(0, 5).Draw(t, label+".kclass") == 0 {
+		switch rapid.IntRange(0, 11).Draw(t, label+".kclass") {
+		case 0, 1:
 			k = rapid.SliceOfN(rapid.Byte(), 1, 20).Draw(t, label+".k")
+		case 2:
+			// keys about as long as a key may be (1024 bytes), sharing long prefixes; 0x00 / 0xFF bytes
+			k = append(bytes.Repeat([]byte{rapid.SampledFrom([]byte{'k', 0xFF, 0x00}).Draw(t, label+".kfill")}, rapid.SampledFrom([]int{1014, 1015, 1018, 1019, 1020}).Draw(t, label+".klen")), []byte(fmt.Sprintf("%04d", i))...)
+		case 3:
+			k = []byte{rapid.SampledFrom([]byte{0x00, 0x01, 0xFF}).Draw(t, label+".k1"), byte(i)}
 		}
 		var v Val
 		switch c := rapid.IntRange(0, 9).Draw(t, label+".vclass"); {
